@@ -14,15 +14,30 @@
 #include DOC_FACTS
 #include "spec_rec.h"
 #include "wf.h"
+#include "spec_step.h"
 
 static unsigned long long answers;
 static int apos, nbits;
 static int next_bit(void) { int b = apos < nbits ? (int)((answers >> apos) & 1) : 0; apos++; return b; }
 static char ev;
-static void *cb_deq_int(const uscxml_ctx *c) { return next_bit() ? &ev : 0; }
-static void *cb_deq_ext(const uscxml_ctx *c) { return next_bit() ? &ev : 0; }
-static int cb_is_matched(const uscxml_ctx *c, const uscxml_transition *t, const void *e) { return next_bit(); }
-static int cb_is_true(const uscxml_ctx *c, const char *e) { return next_bit(); }
+/* answers of the current selection pass, per transition (for the spec function of spec_step.h); a transition that was
+   not asked counts as "would have matched / held" so that a pass that wrongly skips it shows */
+static int ans_m[D_T + 1], ans_c[D_T + 1], asked_c[D_T + 1];
+static void new_pass(void) { for (int t = 0; t <= D_T; t++) { ans_m[t] = 1; ans_c[t] = 1; asked_c[t] = 0; } }
+static void *cb_deq_int(const uscxml_ctx *c) { new_pass(); return next_bit() ? &ev : 0; }
+static void *cb_deq_ext(const uscxml_ctx *c) { new_pass(); return next_bit() ? &ev : 0; }
+static int cb_is_matched(const uscxml_ctx *c, const uscxml_transition *t, const void *e) {
+  int b = next_bit();
+  long idx = t - &USCXML_MACHINE.transitions[0];
+  if (idx >= 0 && idx < D_T) ans_m[idx] = b;
+  return b;
+}
+static int cb_is_true(const uscxml_ctx *c, const char *e) {
+  int ci = e ? sps_cond_index(e) : -1;
+  if (ci < 0) return next_bit();
+  if (!asked_c[ci]) { ans_c[ci] = next_bit(); asked_c[ci] = 1; }
+  return ans_c[ci];
+}
 static unsigned char done_set[USCXML_MAX_NR_STATES_BYTES + 8];
 static int done_bad;
 static int cb_done(const uscxml_ctx *c, const uscxml_state *s, const uscxml_elem_donedata *d) {
@@ -83,6 +98,25 @@ static const char *post_clauses(const uscxml_ctx *pre, const uscxml_ctx *c, int 
       }
       if (!(same || (sp_bit(pre->config, p) && recorded))) return "the record of a history changed although its parent was not active, or to something else than what was active below the parent";
     }
+  if (!skiphist && r == USCXML_ERR_OK && !(pre->flags & (USCXML_CTX_FINISHED | USCXML_CTX_TOP_LEVEL_FINAL))) {
+    /* the step function against the spec function of one microstep (spec_step.h) */
+    int sel[D_T + 1]; unsigned char exp[USCXML_MAX_NR_STATES_BYTES + 8];
+    int pristine = pre->flags == USCXML_CTX_PRISTINE, any = pristine;
+    for (int t = 0; t <= D_T; t++) sel[t] = 0;
+    if (!pristine) {
+      sps_select(pre->config, c->event == 0, ans_m, ans_c, 1, sel);
+      for (int t = 0; t < D_T; t++) if (sel[t]) any = 1;
+    }
+    if (!any) return "the step returned OK although the optimal enabled transition set is empty";
+    sps_config(pre->config, pre->history, sel, pristine, exp);
+    for (int k = 0; k < USCXML_MAX_NR_STATES_BYTES; k++)
+      if (exp[k] != c->config[k]) {
+        static char msg[600]; int n = snprintf(msg, sizeof msg, "configuration differs from the microstep algorithm of the Recommendation, which yields {");
+        for (int i = 0; i < D_N && n < 560; i++) if (sp_bit(exp, i)) n += snprintf(msg + n, sizeof msg - n, " %s", d_id[i] ? d_id[i] : "<scxml>");
+        snprintf(msg + n, sizeof msg - n, " }");
+        return msg;
+      }
+  }
   if (r == USCXML_ERR_OK && legal_config(c->config))
     for (int f = 1; f < D_N; f++) {
       if (d_kind[f] != K_FINAL || !sp_bit(c->config, f) || sp_bit(pre->config, f)) continue;
@@ -101,10 +135,10 @@ int main(int argc, char **argv) {
     unhex(argv[4], pre.history, USCXML_MAX_NR_STATES_BYTES);
     nbits = atoi(argv[5]); skiphist = argc > 6 && !strcmp(argv[6], "skiphist");
     if (argc > 7 || (argc > 6 && strcmp(argv[6], "skiphist"))) unhex(argv[argc - 1], pre.invocations, USCXML_MAX_NR_STATES_BYTES);
-    int pre_ok = (pre.flags == 0) || ((pre.flags & USCXML_CTX_INITIALIZED) && ok_state(&pre));
+    int pre_ok = (pre.flags == 0) || ((pre.flags & USCXML_CTX_INITIALIZED) && !(pre.flags & USCXML_CTX_TRANSITION_FOUND) && ok_state(&pre));
     printf("pre-state flags=%d ", pre.flags); show("config", pre.config); printf(" "); show("history", pre.history); printf(" legal=%d\n", pre_ok);
     for (answers = 0; answers < (1ULL << nbits); answers++) {
-      uscxml_ctx c = pre; apos = 0; done_bad = 0; memset(done_set, 0, sizeof done_set);
+      uscxml_ctx c = pre; apos = 0; done_bad = 0; memset(done_set, 0, sizeof done_set); new_pass();
       int r = uscxml_step(&c);
       const char *why = post_clauses(&pre, &c, r, pre_ok);
       if (why) { printf("REPRODUCED answers=0x%llx ret=%d: %s; ", answers, r, why); show("config", c.config); printf(" "); show("history", c.history); printf("\n"); return 1; }
